@@ -62,7 +62,7 @@ def parse_output(text, n):
     return res
 
 
-def run_histories(exe, mode, histories, workdir, timeout=1800):
+def run_histories(exe, mode, histories, workdir, timeout=1800, tablecheck=False):
     """Run histories (each in its own forked child) -> list of (lines, endline)."""
     base = os.path.join(workdir, "run-" + mode)
     os.makedirs(base, exist_ok=True)
@@ -70,6 +70,10 @@ def run_histories(exe, mode, histories, workdir, timeout=1800):
     env = dict(os.environ)
     env["ASAN_OPTIONS"] = f"log_path={log}:detect_leaks=0:abort_on_error=0:allocator_may_return_null=1"
     env["UBSAN_OPTIONS"] = f"log_path={log}:print_stacktrace=1"
+    if tablecheck:
+        env["WASIOPS_TABLECHECK"] = "1"      # real mode: append ` !stale:n / !alias:m,n / !retarget:n` tokens
+    else:
+        env.pop("WASIOPS_TABLECHECK", None)
     p = subprocess.run([exe, mode, base, log], input=format_histories(histories), stdout=subprocess.PIPE,
                        stderr=subprocess.PIPE, text=True, timeout=timeout, env=env)
     if p.returncode != 0:
@@ -214,9 +218,14 @@ def std_setup(h):
     h.raw("mkfile sb/d0/g " + b"0123456789".hex())
 
 
+def table_tokens(line):
+    """the ` !…` descriptor-table invariant reports of a real-mode answer line"""
+    return [t[1:] for t in line.split() if t.startswith("!")]
+
+
 def canon_line(line):
     """merge adjacent runs (`a:hex b:hex` with b = a + len) so both sides print maximal runs"""
-    parts = line.split()
+    parts = [t for t in line.split() if not t.startswith("!")]
     if not parts or parts[0] not in ("r", "file"):
         return line
     k = 2
